@@ -160,6 +160,30 @@ CHECKS = {
         'recurrence after the first firing is a listed known finding; '
         'liveness only in bounded, harness-scheduled form.',
     ),
+    'C19': (
+        'standalone', 'exploration',
+        'Hypothesis-generated site trees (roots, symlinks, look-alike '
+        'siblings, marked secrets outside) x request paths from a segment '
+        'grammar and aimed at each secret, oracle: no marker of an outside '
+        'file in any response; exhaustive endpoint x method x certificate x '
+        'clients x access-hook matrix with spy handlers',
+        'Part static drives fe._static and StaticContent.render_GET on a '
+        'generated site (7 root placements incl. nested roots and look-alike '
+        'sibling names; optional directories, index pages, file and '
+        'directory symlinks to inside and outside, index.html links leaving '
+        'the root) with 1-10 request paths per site; a response containing '
+        'the unique marker of a file whose real path is outside both roots '
+        'is a violation. Part endpoints walks the real route tree '
+        '(fe.root()), replaces every handler by a spy and enumerates all '
+        'registered endpoints x GET/POST/PUT/DELETE x {no cert, cert} x '
+        '{clients configured or not} x 11 hooks (default, constant, six '
+        'exception types, missing module, missing attribute): a handler runs '
+        'only after security.sanctioned returned True for its URI, never for '
+        'run/reset/submit/snapshot without a certificate when clients are '
+        'configured, never when the hook fails.',
+        'URI is passed undecoded as twisted does; handlers never executed; '
+        'stand-in certificate object.',
+    ),
 }
 
 NOT_YET = 'check not built yet in this session (planned, see DESIGN.md section 4)'
